@@ -116,9 +116,74 @@ Proof. intros. apply comma_fix_render; auto. Qed.
 Theorem double_text_sep_indep : forall g sep nz, g17_wf g = true -> (sep = CH_COMMA \/ sep = CH_DOT) ->
   double_text nz (render_with sep g) = double_text nz (render_with CH_DOT g).
 Proof.
-  intros g sep nz Hwf Hsep. unfold double_text.
+  intros g sep nz Hwf Hsep. unfold double_text, double_text_fmt.
   destruct (comma_fix_render g sep Hwf Hsep) as [-> _]. reflexivity.
 Qed.
+
+(* ---- any format.  What matters is only the shape of what snprintf wrote: one separator
+   between a prefix free of ',' and '.', and a suffix free of ','. *)
+Theorem comma_fix_general : forall pre post sep,
+  lacks CH_COMMA pre = true -> lacks CH_DOT pre = true -> lacks CH_COMMA post = true ->
+  (sep = CH_COMMA \/ sep = CH_DOT) ->
+  comma_fix (pre ++ sep :: post) = (pre ++ CH_DOT :: post, Some (length pre)).
+Proof.
+  intros pre post sep Hc Hd Hp [-> | ->]; unfold comma_fix.
+  - rewrite (strchr_hit CH_COMMA _ _ Hc), set_nth_app. reflexivity.
+  - rewrite (strchr_none CH_COMMA).
+    + rewrite (strchr_hit CH_DOT _ _ Hd). reflexivity.
+    + rewrite lacks_app, Hc. simpl. exact Hp.
+Qed.
+
+(* HYPOTHESIS on the oracle `txt` (what snprintf(buf, 128, format, d) writes under each numeric
+   locale, for one format and one double): either the two texts are pre ++ sep :: post with the
+   locale's separator as the only difference, pre free of ',' and '.', post free of ',' — the
+   output of ONE floating conversion (%f %e %g with flags/width/precision) inside literal text
+   that has no ',' and no '.' before the number and no ',' after it — or they do not depend on the
+   locale at all (nothing after the point was printed: %.0f, integral %g). *)
+Definition one_conversion (txt : numloc -> list byte) : Prop :=
+  (exists pre post, lacks CH_COMMA pre = true /\ lacks CH_DOT pre = true /\ lacks CH_COMMA post = true /\
+                    forall l, txt l = pre ++ sep_of l :: post)
+  \/ (forall l, txt l = txt NumC).
+
+Theorem ser_fmt_locale_indep : forall (txt : numloc -> list byte) fmt c nz,
+  one_conversion txt ->
+  forall l, ser_double_fmt fmt c nz (txt l) = ser_double_fmt fmt c nz (txt NumC).
+Proof.
+  intros txt fmt c nz H l. destruct c as [|neg|]; try reflexivity. simpl.
+  destruct H as [(pre & post & Hc & Hd & Hp & Ht) | Hsame].
+  - rewrite (Ht l), (Ht NumC). unfold double_text_fmt.
+    rewrite (comma_fix_general pre post (sep_of l) Hc Hd Hp) by (destruct l; simpl; auto).
+    rewrite (comma_fix_general pre post (sep_of NumC) Hc Hd Hp) by (simpl; auto).
+    reflexivity.
+  - rewrite (Hsame l). reflexivity.
+Qed.
+
+(* non-vacuity: "%.3f" of 1.5 and of 12345.5, "%10.2f", "%.0f" (no ".0" appended: format has ".0f"), "%e" *)
+Definition txt_of (pre post : list byte) (l : numloc) : list byte := pre ++ sep_of l :: post.
+Example ser_fmt_examples :
+  one_conversion (txt_of [49] [53; 48; 48]) /\
+  ser_double_fmt (Some [37; 46; 51; 102]) DFin false (txt_of [49] [53; 48; 48] NumComma) = [49; 46; 53; 48; 48] /\
+  ser_double_fmt (Some [37; 46; 51; 102]) DFin true (txt_of [49] [53; 48; 48] NumComma) = [49; 46; 53] /\
+  ser_double_fmt (Some [37; 49; 48; 46; 50; 102]) DFin false (txt_of [32; 32; 32; 49] [53; 48] NumComma) = [32; 32; 32; 49; 46; 53; 48] /\
+  ser_double_fmt (Some [37; 46; 48; 102]) DFin false [50] = [50] /\
+  ser_double_fmt (Some [37; 103]) DFin false [50] = [50; 46; 48] /\
+  format_drops_decimals (Some [37; 46; 48; 102]) = false /\ format_drops_decimals (Some [37; 46; 51; 102]) = true /\
+  format_drops_decimals None = true.
+Proof.
+  split.
+  - left. exists [49], [53; 48; 48]. repeat split; reflexivity.
+  - vm_compute. repeat split; reflexivity.
+Qed.
+
+(* the limit, as the code is written: with a custom format that has a literal comma of its own
+   before the number ("x,%.2f") the fix-up replaces that FIRST comma in every locale, so the decimal
+   comma of the comma locale survives: the text depends on the locale.  Such a format is outside
+   `one_conversion` (and does not print a JSON number in any locale). *)
+Example ser_fmt_literal_comma_dependent :
+  let txt := fun l => [120; 44; 49] ++ sep_of l :: [53; 48] in
+  ser_double_fmt (Some [120; 44; 37; 46; 50; 102]) DFin false (txt NumC) = [120; 46; 49; 46; 53; 48] /\
+  ser_double_fmt (Some [120; 44; 37; 46; 50; 102]) DFin false (txt NumComma) = [120; 46; 49; 44; 53; 48].
+Proof. vm_compute. split; reflexivity. Qed.
 
 Section SnprintfOracle.
   (* the libc oracle: bits of a finite double |-> shape of its "%.17g" text; and what snprintf
